@@ -9,6 +9,7 @@
      data_fits x d    = data opcode d is legal in the fragmentation state of x
                         (Continue with an accumulator; Text/Binary without one)
      reserve_ok F e   = e is not a reservation, or it is EvReserve n with n <= max F 6
+     chunk_ok R rd    = rd is not data, or it is RdData bs with |bs| <= R
      ctx_inv M x      = a held frame header announces a non-empty payload, and the accumulator, if any,
                         has size <= M and a well-formed undecoded tail
    Partial by nature (stated in DESIGN.md): physical heap use (BytesMut/Vec growth) is not exhibited by
@@ -130,6 +131,22 @@ Theorem C06_reserve_bound_ops : forall F M x ops w rs x' w',
   Forall (reserve_ok F) (w_log w) -> Forall (reserve_ok F) (w_log w').
 Proof. exact ops_reserve_bound. Qed.
 
+(* a transport read is issued only while fewer than max F 14 bytes are buffered (14 = longest frame
+   header), with a reservation of at most max F 6 *)
+Theorem C06_read_only_when_short : forall F c n c',
+  try_take F c = TkNeedMore n c' -> n <= N.max F 6 /\ blen (c_in c') < N.max F 14.
+Proof. exact read_issued_only_when_short. Qed.
+
+(* hence the in-buffer is bounded by the frame limit plus what one transport read can return: if every
+   read returns at most R bytes (chunk_ok R: R = spare capacity handed to the transport, a physical
+   quantity outside the model), in_buffer holds fewer than max F 14 + R bytes after any op list *)
+Theorem C06_in_buffer_bound : forall F M R ops x w rs x' w',
+  cfg_max_frame_size (x_cfg x) = Some F -> cfg_max_message_size (x_cfg x) = Some M ->
+  run_ops x ops w = (rs, x', w') ->
+  Forall (chunk_ok R) (w_rds w) -> blen (c_in (x_codec x)) < N.max F 14 + R ->
+  blen (c_in (x_codec x')) < N.max F 14 + R.
+Proof. exact ops_in_buffer_bound. Qed.
+
 (* the accumulator never exceeds M: invariant of every socket created by ctx_new, after any op list *)
 Theorem C06_accumulator_bound : forall F M role part cfg x ops w rs x' w',
   cfg_max_frame_size cfg = Some F -> cfg_max_message_size cfg = Some M ->
@@ -143,6 +160,23 @@ Theorem C06_accumulator_inductive : forall F M x o w res x' w',
   cfg_max_frame_size (x_cfg x) = Some F -> cfg_max_message_size (x_cfg x) = Some M ->
   ctx_inv M x -> run_op x o w = (res, x', w') -> ctx_inv M x'.
 Proof. exact accumulator_step. Qed.
+
+(* PARTIAL (by nature, see header): what stands for "memory held while reading" in the model, together.
+   For a socket created by ctx_new whose initial buffer is within the bound, after any op list against
+   any transport returning at most R bytes per read: in_buffer < max F 14 + R, accumulator <= M, every
+   in_buffer.reserve(n) had n <= max F 6 (and every delivered message is <= M, every frame payload <= F,
+   by the theorems above). Missing for the full sentence of C06: the step from these logical sizes to
+   allocated bytes (BytesMut/Vec capacity growth, the allocator) and the value of R (spare capacity
+   offered to the transport); neither exists in a Gallina model; the harness measures them. *)
+Theorem C06_memory_bound_partial : forall F M R role part cfg x ops w rs x' w',
+  cfg_max_frame_size cfg = Some F -> cfg_max_message_size cfg = Some M ->
+  ctx_new role part cfg = Some x ->
+  blen part < N.max F 14 + R -> Forall (chunk_ok R) (w_rds w) -> w_log w = [] ->
+  run_ops x ops w = (rs, x', w') ->
+  blen (c_in (x_codec x')) < N.max F 14 + R /\
+  running_size x' <= M /\
+  Forall (reserve_ok F) (w_log w').
+Proof. exact ops_memory_bound. Qed.
 
 (* ---- non-vacuity: the limits are reached with equality and exceeded by one ---- *)
 
@@ -223,5 +257,8 @@ Print Assumptions C06_reject_before_payload_trace.
 Print Assumptions C06_reject_sticky.
 Print Assumptions C06_reserve_bound.
 Print Assumptions C06_reserve_bound_ops.
+Print Assumptions C06_read_only_when_short.
+Print Assumptions C06_in_buffer_bound.
 Print Assumptions C06_accumulator_bound.
 Print Assumptions C06_accumulator_inductive.
+Print Assumptions C06_memory_bound_partial.
